@@ -303,6 +303,30 @@ def native_wiring(ctx, P) -> None:
         if h is None:
             okr = False
     ctx.check(okr and seenr == {True, False}, RWI, "Windows _read_events reads the handle for watch.path with the recursive flag", "_read_events does not return read_events(handle, watch.path, recursive=watch.is_recursive) when it has a handle and [] otherwise", rd.loc)
+    # attributes read by the translators exist (the FSEvents callback swallows every exception: a missing attribute silences the emitter)
+    from ..flow import check_attrs_initialised
+
+    check_attrs_initialised(ctx, RWI, P, ["FSEventsEmitter", "FSEventsObserver", "WindowsApiEmitter", "WindowsApiObserver"], "in the FSEvents callback it is caught and logged, so every batch is dropped; in the Windows emitter it kills the emitter thread")
+    # start-up snapshot: taken of the watch path as str, iff history is to be suppressed (it is what makes 'created' mean 'new')
+    os_ = F.methods.get("on_thread_start")
+    if os_ is None:
+        raise AnalysisError("anchor vanished: FSEventsEmitter.on_thread_start")
+    oksn, seensn = True, set()
+    for p in Enumerator(Cfg(P)).run(os_, selfcls="FSEventsEmitter"):
+        sup = p.conds().get("self.suppress_history")
+        isb = p.conds().get("isinstance(self.watch.path, bytes)")
+        st_ = [e for e in p.evs if e.kind == "store" and e.extra.get("attr") == "_starting_state"]
+        seensn.add(sup)
+        if sup is True:
+            want = "DirectorySnapshot(os.fsdecode(self.watch.path))" if isb is True else "DirectorySnapshot(self.watch.path)" if isb is False else None
+            if len(st_) != 1 or st_[0].extra.get("value") != want:
+                oksn = False
+        elif sup is False:
+            if st_:
+                oksn = False
+        else:
+            oksn = False
+    ctx.check(oksn and seensn == {True, False}, RWI, "FSEvents start-up snapshot iff history is suppressed, of the str form of the watch path", "on_thread_start does not store DirectorySnapshot(watch path as str) exactly when suppress_history is set: pre-existing items are reported created (or genuinely new ones suppressed), or the snapshot is keyed by bytes paths the native str paths never match", os_.loc)
     loops = [n for n in ast.walk(qe.node) if isinstance(n, ast.For)]
     okl = False
     if loops:
@@ -825,6 +849,9 @@ VARIANTS = [
     dict(name="B Windows reads only without a handle", expect="fire", rule="C20/native-wiring", edits=[("observers/read_directory_changes.py", "        if not self._whandle:\n            return []", "        if self._whandle:\n            return []")]),
     dict(name="B Windows records never fetched", expect="fire", rule="C20/", edits=[("observers/read_directory_changes.py", "        winapi_events = self._read_events()\n", "        winapi_events = []\n")]),
     dict(name="E Windows records iterated directly", expect="silent", edits=[("observers/read_directory_changes.py", "        winapi_events = self._read_events()\n        with self._lock:\n            last_renamed_src_path = \"\"\n            for winapi_event in winapi_events:", "        with self._lock:\n            last_renamed_src_path = \"\"\n            for winapi_event in self._read_events():")]),
+    dict(name="B FSEvents absolute watch path never computed", expect="fire", rule="C20/native-wiring", edits=[(FS, "        self._absolute_watch_path = os.path.realpath(os.path.abspath(os.path.expanduser(self.watch.path)))\n", "")]),
+    dict(name="B FSEvents start-up snapshot only when history is wanted", expect="fire", rule="C20/native-wiring", edits=[(FS, "        if self.suppress_history:\n            watch_path", "        if not self.suppress_history:\n            watch_path")]),
+    dict(name="B FSEvents start-up snapshot keyed by bytes", expect="fire", rule="C20/native-wiring", edits=[(FS, "watch_path = os.fsdecode(self.watch.path) if isinstance(self.watch.path, bytes) else self.watch.path", "watch_path = os.fsdecode(self.watch.path) if not isinstance(self.watch.path, bytes) else self.watch.path")]),
     dict(name="B FSEvents override forwards (event, self)", expect="fire", rule="C20/nonrecursive-filter-unbypassable", edits=[(FS, "EventEmitter.queue_event(self, event)", "EventEmitter.queue_event(event, self)")]),
     dict(name="B FSEvents non-recursive filter inverted", expect="fire", rule="C20/nonrecursive-filter-unbypassable", edits=[(FS, "if self._watch.is_recursive or not self._is_recursive_event(event):", "if self._watch.is_recursive or self._is_recursive_event(event):")]),
     dict(name="B Windows walk never stops", expect="fire", rule="C20/windows-buffer-walk", edits=[("observers/winapi.py", "        if num_to_skip <= 0:\n            break\n", "")]),
